@@ -62,9 +62,25 @@ def oracle(ctx, n, sub="oracle"):
     return summ
 
 
+def oracle_enr(ctx, n, sub="oracle-enr"):
+    """ENR (consumer and business branch) / DNE payment strings: substring oracle on the real cell."""
+    d = os.path.join(ctx.rundir, sub)
+    os.makedirs(d, exist_ok=True)
+    rc, out = C.sh([os.path.join(C.BIN, "c20enr"), "oracle", "-out", d, "-n", str(n), "-corpus", os.path.join(C.VERIF, "corpus", "C20")], timeout=3000)
+    ctx.log("oracle c20enr", out[-2000:])
+    if rc != 0:
+        ctx.diag.append("payment-information oracle crashed rc=%d: %s" % (rc, out[-300:]))
+    before = len(ctx.fails)
+    summ = ctx.read_jsonl(os.path.join(d, "oracle.jsonl"))
+    for f in ctx.fails[before:]:
+        f["input"] = f.get("case")
+    return summ
+
+
 def search(ctx, factor):
     before = len(ctx.fails)
     oracle(ctx, ctx.scale(3000, 60000) * factor, "search")
+    oracle_enr(ctx, ctx.scale(1500, 30000) * factor, "search-enr")
     found = ctx.fails[before:]
     del ctx.fails[before:]
     return found
@@ -100,6 +116,7 @@ def run(ctx):
     corr_enr(ctx)
     summ = oracle(ctx, ctx.scale(3000, 60000))
     ctx.add_summary(summ, "describe.File oracle")
+    ctx.add_summary(oracle_enr(ctx, ctx.scale(1500, 30000)), "ENR/DNE payment information oracle")
     if ctx.tier == "thorough":
         ctx.cov["forbidden_vernacular"] = C.forbidden_vernacular()
 
@@ -109,6 +126,11 @@ def replay(path):
     if not ok:
         print(out[-2000:])
         return 1
-    rc, out = C.sh([os.path.join(C.BIN, "c20"), "replay", path], timeout=600)
+    try:
+        cls = json.load(open(path)).get("input", {}).get("class", "")
+    except (OSError, ValueError, AttributeError):
+        cls = ""
+    binary = "c20enr" if str(cls).startswith("pri-") else "c20"
+    rc, out = C.sh([os.path.join(C.BIN, binary), "replay", path], timeout=600)
     print(out)
     return 1 if rc != 0 else 0
